@@ -26,6 +26,7 @@ type MethodResult struct {
 	Msg      string `json:"msg,omitempty"`
 	Args     int    `json:"args"`
 	Result   string `json:"result_kind,omitempty"`
+	Pass     int    `json:"pass,omitempty"` // 1: the second call of the method on the same client
 }
 
 // MethodsSpec: call every generated client method once with schema-generated arguments.
@@ -110,6 +111,15 @@ func (e *Env) runMethods() error {
 			g.ForceBits = map[int]bool{}
 			v, err := g.Val(cfgDef, 1)
 			if err == nil {
+				// as a real server fills them: issued now, valid for an hour (a client may be tempted to remember it)
+				for i, p := range cfgDef.Params {
+					switch p.Name {
+					case "date":
+						v.Fields[i] = int32(time.Now().Unix())
+					case "expires":
+						v.Fields[i] = int32(time.Now().Unix() + 3600)
+					}
+				}
 				if b, err := tls.Encode(v); err == nil {
 					c.Send(refsrv.RpcResult(r.MsgID, b), true)
 					return
@@ -143,220 +153,226 @@ func (e *Env) runMethods() error {
 		}
 	}()
 	cv := reflect.ValueOf(client)
-	n := uint64(0)
-	for _, d := range sch.API(false) {
-		if !d.Function || d.Generic || (spec.Only != "" && spec.Only != d.Name) {
-			continue
-		}
-		n++
-		mr := MethodResult{Function: d.Name}
-		pt, ok := reg.ByID[d.ID]
-		if !ok || pt.Kind() != reflect.Ptr {
-			mr.Msg = "no registered request type"
-			e.Res.Methods = append(e.Res.Methods, mr)
-			continue
-		}
-		mr.Method = strings.TrimSuffix(pt.Elem().Name(), "Params")
-		m := cv.MethodByName(mr.Method)
-		if !m.IsValid() {
-			mr.Msg = "the client has no method " + mr.Method
-			e.Res.Methods = append(e.Res.Methods, mr)
-			continue
-		}
-		// request value from the schema line, bridged into the request struct by position
-		seed := spec.Seed*1000003 + n*7919
-		req, err := gen(seed).Val(d, 2)
-		if err != nil {
-			mr.Msg = "INFRA: request generation: " + err.Error()
-			e.Res.Methods = append(e.Res.Methods, mr)
-			continue
-		}
-		alternate(req, spec.Invert)
-		want, err := tls.Encode(req)
-		if err != nil {
-			mr.Msg = "INFRA: request encoding: " + err.Error()
-			e.Res.Methods = append(e.Res.Methods, mr)
-			continue
-		}
-		gv, err := tlx.Bridge(reg, req)
-		if err != nil {
-			mr.Msg = "INFRA: request bridge: " + err.Error()
-			e.Res.Methods = append(e.Res.Methods, mr)
-			continue
-		}
-		// arguments: the request struct itself, or its fields in declaration order
-		mt := m.Type()
-		var args []reflect.Value
-		switch {
-		case mt.NumIn() == 1 && mt.In(0) == pt && gv.Elem().NumField() != 1:
-			args = []reflect.Value{gv}
-		case mt.NumIn() == 1 && mt.In(0) == pt:
-			args = []reflect.Value{gv}
-		default:
-			if mt.NumIn() != gv.Elem().NumField() {
-				mr.Msg = fmt.Sprintf("method takes %d arguments, the function has %d parameters", mt.NumIn(), gv.Elem().NumField())
+	// two passes over all methods on the same client: what a method learnt from its first answer must not replace the
+	// second request or its answer
+	for pass := uint64(0); pass < 2; pass++ {
+		n := uint64(0)
+		for _, d := range sch.API(false) {
+			if !d.Function || d.Generic || (spec.Only != "" && spec.Only != d.Name) {
+				continue
+			}
+			n++
+			mr := MethodResult{Function: d.Name, Pass: int(pass)}
+			pt, ok := reg.ByID[d.ID]
+			if !ok || pt.Kind() != reflect.Ptr {
+				mr.Msg = "no registered request type"
 				e.Res.Methods = append(e.Res.Methods, mr)
 				continue
 			}
-			bad := false
-			for i := 0; i < mt.NumIn(); i++ {
-				f := gv.Elem().Field(i)
-				if !f.Type().AssignableTo(mt.In(i)) {
-					mr.Msg = fmt.Sprintf("argument %d has type %v, schema parameter %d is %v", i, mt.In(i), i, f.Type())
-					bad = true
-					break
-				}
-				args = append(args, f)
-			}
-			if bad {
+			mr.Method = strings.TrimSuffix(pt.Elem().Name(), "Params")
+			m := cv.MethodByName(mr.Method)
+			if !m.IsValid() {
+				mr.Msg = "the client has no method " + mr.Method
 				e.Res.Methods = append(e.Res.Methods, mr)
 				continue
 			}
-		}
-		mr.Args = len(args)
-		// a value of the declared result type
-		var ans []byte
-		var wantRes reflect.Value
-		resKind := "object"
-		g := gen(seed + 1)
-		rt := strings.TrimSpace(d.Result)
-		switch {
-		case rt == "Bool":
-			resKind = "Bool"
-			b := n%2 == 0
-			if b {
-				ans = refsrv.BoolTrue()
-			} else {
-				ans = refsrv.BoolFalse()
-			}
-			wantRes = reflect.ValueOf(b)
-		case strings.HasPrefix(rt, "Vector<"):
-			resKind = "vector"
-			elem := strings.TrimSuffix(strings.TrimPrefix(rt, "Vector<"), ">")
-			w := &refsrv.W{}
-			cnt := 1 + int(n%3)
-			w.U32(refsrv.IDVector).U32(uint32(cnt))
-			sliceT := mt.Out(0)
-			ws := reflect.MakeSlice(sliceT, 0, cnt)
-			okv := true
-			for i := 0; i < cnt && okv; i++ {
-				switch elem {
-				case "int":
-					x := int32(seed) + int32(i)
-					w.I32(x)
-					ws = reflect.Append(ws, reflect.ValueOf(x).Convert(sliceT.Elem()))
-				case "long":
-					x := int64(seed)<<20 + int64(i)
-					w.I64(x)
-					ws = reflect.Append(ws, reflect.ValueOf(x).Convert(sliceT.Elem()))
-				default:
-					c, err := g.Ctor("api_latest.tl", elem, 1)
-					if err != nil {
-						okv = false
-						break
-					}
-					v, err := g.Val(c, 1)
-					if err != nil {
-						okv = false
-						break
-					}
-					b, err1 := tls.Encode(v)
-					ev, err2 := tlx.Bridge(reg, v)
-					if err1 != nil || err2 != nil || !ev.Type().AssignableTo(sliceT.Elem()) {
-						okv = false
-						break
-					}
-					w.Raw(b)
-					ws = reflect.Append(ws, ev)
-				}
-			}
-			if !okv {
-				mr.Msg = "INFRA: result generation for " + rt
-				e.Res.Methods = append(e.Res.Methods, mr)
-				continue
-			}
-			ans, wantRes = w.B, ws
-		default:
-			c, err := g.Ctor("api_latest.tl", rt, 1)
+			// request value from the schema line, bridged into the request struct by position
+			seed := spec.Seed*1000003 + n*7919 + pass*104729
+			req, err := gen(seed).Val(d, 2)
 			if err != nil {
-				mr.Msg = "INFRA: result type: " + err.Error()
+				mr.Msg = "INFRA: request generation: " + err.Error()
 				e.Res.Methods = append(e.Res.Methods, mr)
 				continue
 			}
-			v, err := g.Val(c, 1)
-			if err == nil {
-				ans, err = tls.Encode(v)
-			}
-			if err == nil {
-				wantRes, err = tlx.Bridge(reg, v)
-			}
+			alternate(req, spec.Invert)
+			want, err := tls.Encode(req)
 			if err != nil {
-				mr.Msg = "INFRA: result generation: " + err.Error()
+				mr.Msg = "INFRA: request encoding: " + err.Error()
 				e.Res.Methods = append(e.Res.Methods, mr)
 				continue
 			}
-		}
-		mr.Result = resKind
-		mu.Lock()
-		expectBody, answer, gotBody = want, ans, nil
-		mu.Unlock()
-		for len(arrived) > 0 {
-			<-arrived
-		}
-		type outcome struct {
-			out []reflect.Value
-			pan any
-		}
-		ch := make(chan outcome, 1)
-		go func() {
-			var o outcome
-			defer func() {
-				if r := recover(); r != nil {
-					o.pan = r
+			gv, err := tlx.Bridge(reg, req)
+			if err != nil {
+				mr.Msg = "INFRA: request bridge: " + err.Error()
+				e.Res.Methods = append(e.Res.Methods, mr)
+				continue
+			}
+			// arguments: the request struct itself, or its fields in declaration order
+			mt := m.Type()
+			var args []reflect.Value
+			switch {
+			case mt.NumIn() == 1 && mt.In(0) == pt && gv.Elem().NumField() != 1:
+				args = []reflect.Value{gv}
+			case mt.NumIn() == 1 && mt.In(0) == pt:
+				args = []reflect.Value{gv}
+			default:
+				if mt.NumIn() != gv.Elem().NumField() {
+					mr.Msg = fmt.Sprintf("method takes %d arguments, the function has %d parameters", mt.NumIn(), gv.Elem().NumField())
+					e.Res.Methods = append(e.Res.Methods, mr)
+					continue
 				}
-				ch <- o
-			}()
-			o.out = m.Call(args)
-		}()
-		var o outcome
-		select {
-		case o = <-ch:
-		case <-time.After(e.stepPatience()):
-			mr.Msg = "the method did not return (no answer delivered?)"
+				bad := false
+				for i := 0; i < mt.NumIn(); i++ {
+					f := gv.Elem().Field(i)
+					if !f.Type().AssignableTo(mt.In(i)) {
+						mr.Msg = fmt.Sprintf("argument %d has type %v, schema parameter %d is %v", i, mt.In(i), i, f.Type())
+						bad = true
+						break
+					}
+					args = append(args, f)
+				}
+				if bad {
+					e.Res.Methods = append(e.Res.Methods, mr)
+					continue
+				}
+			}
+			mr.Args = len(args)
+			// a value of the declared result type
+			var ans []byte
+			var wantRes reflect.Value
+			resKind := "object"
+			g := gen(seed + 1)
+			rt := strings.TrimSpace(d.Result)
+			switch {
+			case rt == "Bool":
+				resKind = "Bool"
+				b := n%2 == 0
+				if b {
+					ans = refsrv.BoolTrue()
+				} else {
+					ans = refsrv.BoolFalse()
+				}
+				wantRes = reflect.ValueOf(b)
+			case strings.HasPrefix(rt, "Vector<"):
+				resKind = "vector"
+				elem := strings.TrimSuffix(strings.TrimPrefix(rt, "Vector<"), ">")
+				w := &refsrv.W{}
+				cnt := 1 + int(n%3)
+				w.U32(refsrv.IDVector).U32(uint32(cnt))
+				sliceT := mt.Out(0)
+				ws := reflect.MakeSlice(sliceT, 0, cnt)
+				okv := true
+				for i := 0; i < cnt && okv; i++ {
+					switch elem {
+					case "int":
+						x := int32(seed) + int32(i)
+						w.I32(x)
+						ws = reflect.Append(ws, reflect.ValueOf(x).Convert(sliceT.Elem()))
+					case "long":
+						x := int64(seed)<<20 + int64(i)
+						w.I64(x)
+						ws = reflect.Append(ws, reflect.ValueOf(x).Convert(sliceT.Elem()))
+					default:
+						c, err := g.Ctor("api_latest.tl", elem, 1)
+						if err != nil {
+							okv = false
+							break
+						}
+						v, err := g.Val(c, 1)
+						if err != nil {
+							okv = false
+							break
+						}
+						b, err1 := tls.Encode(v)
+						ev, err2 := tlx.Bridge(reg, v)
+						if err1 != nil || err2 != nil || !ev.Type().AssignableTo(sliceT.Elem()) {
+							okv = false
+							break
+						}
+						w.Raw(b)
+						ws = reflect.Append(ws, ev)
+					}
+				}
+				if !okv {
+					mr.Msg = "INFRA: result generation for " + rt
+					e.Res.Methods = append(e.Res.Methods, mr)
+					continue
+				}
+				ans, wantRes = w.B, ws
+			default:
+				c, err := g.Ctor("api_latest.tl", rt, 1)
+				if err != nil {
+					mr.Msg = "INFRA: result type: " + err.Error()
+					e.Res.Methods = append(e.Res.Methods, mr)
+					continue
+				}
+				v, err := g.Val(c, 1)
+				if err == nil {
+					ans, err = tls.Encode(v)
+				}
+				if err == nil {
+					wantRes, err = tlx.Bridge(reg, v)
+				}
+				if err != nil {
+					mr.Msg = "INFRA: result generation: " + err.Error()
+					e.Res.Methods = append(e.Res.Methods, mr)
+					continue
+				}
+			}
+			mr.Result = resKind
 			mu.Lock()
-			if gotBody != nil && !bytes.Equal(gotBody, expectBody) {
-				mr.Msg = describeDiff(gotBody, expectBody)
-			}
+			expectBody, answer, gotBody = want, ans, nil
 			mu.Unlock()
+			for len(arrived) > 0 {
+				<-arrived
+			}
+			type outcome struct {
+				out []reflect.Value
+				pan any
+			}
+			ch := make(chan outcome, 1)
+			go func() {
+				var o outcome
+				defer func() {
+					if r := recover(); r != nil {
+						o.pan = r
+					}
+					ch <- o
+				}()
+				o.out = m.Call(args)
+			}()
+			var o outcome
+			select {
+			case o = <-ch:
+			case <-time.After(e.stepPatience()):
+				mr.Msg = "the method did not return (no answer delivered?)"
+				mu.Lock()
+				if gotBody != nil && !bytes.Equal(gotBody, expectBody) {
+					mr.Msg = describeDiff(gotBody, expectBody)
+				}
+				mu.Unlock()
+				e.Res.Methods = append(e.Res.Methods, mr)
+				continue
+			}
+			mu.Lock()
+			got := gotBody
+			mu.Unlock()
+			switch {
+			case got == nil && pass > 0:
+				mr.Msg = "the second call of the method on this client returned without sending a request"
+			case got == nil:
+				mr.Msg = "the method returned without sending a request"
+			case !bytes.Equal(got, expectBody):
+				mr.Msg = describeDiff(got, expectBody)
+			case o.pan != nil:
+				mr.Msg = fmt.Sprintf("the method panicked on an answer of the declared result type %s: %v", rt, o.pan)
+			case len(o.out) != 2:
+				mr.Msg = "method does not return (value, error)"
+			case !o.out[1].IsNil():
+				mr.Msg = fmt.Sprintf("the method returned an error for an answer of the declared result type %s: %v", rt, o.out[1].Interface())
+			default:
+				gotV := o.out[0]
+				if gotV.Kind() == reflect.Interface && !gotV.IsNil() {
+					gotV = gotV.Elem()
+				}
+				if d := tlx.Equal(wantRes, gotV); d != "" {
+					mr.Msg = fmt.Sprintf("the method returned a value different from the server's answer (%s) at %s", rt, d)
+				} else {
+					mr.OK = true
+				}
+			}
 			e.Res.Methods = append(e.Res.Methods, mr)
-			continue
 		}
-		mu.Lock()
-		got := gotBody
-		mu.Unlock()
-		switch {
-		case got == nil:
-			mr.Msg = "the method returned without sending a request"
-		case !bytes.Equal(got, expectBody):
-			mr.Msg = describeDiff(got, expectBody)
-		case o.pan != nil:
-			mr.Msg = fmt.Sprintf("the method panicked on an answer of the declared result type %s: %v", rt, o.pan)
-		case len(o.out) != 2:
-			mr.Msg = "method does not return (value, error)"
-		case !o.out[1].IsNil():
-			mr.Msg = fmt.Sprintf("the method returned an error for an answer of the declared result type %s: %v", rt, o.out[1].Interface())
-		default:
-			gotV := o.out[0]
-			if gotV.Kind() == reflect.Interface && !gotV.IsNil() {
-				gotV = gotV.Elem()
-			}
-			if d := tlx.Equal(wantRes, gotV); d != "" {
-				mr.Msg = fmt.Sprintf("the method returned a value different from the server's answer (%s) at %s", rt, d)
-			} else {
-				mr.OK = true
-			}
-		}
-		e.Res.Methods = append(e.Res.Methods, mr)
 	}
 	e.Finish()
 	return nil
